@@ -271,6 +271,18 @@ func (d *DB) Query(sqlString string, includeMem bool) *Result {
 	return RunQuery(context.Background(), d.DB, sqlString, includeMem, nil)
 }
 
+// SubQuery plans and runs sqlString the way it runs as an IN-subquery (isSubQuery=true: its select
+// list is replaced by _points, the dimension comes from the row key).
+func (d *DB) SubQuery(sqlString string, includeMem bool) *Result {
+	res := &Result{SQL: sqlString}
+	src, err := d.DB.Query(sqlString, true, nil, includeMem)
+	if err != nil {
+		res.PlanErr = err
+		return res
+	}
+	return Iterate(context.Background(), src, res, nil)
+}
+
 // RunQuery plans and runs a query; onRow (optional) is called for every row
 // before it is recorded and may stop the iteration or return an error.
 func RunQuery(ctx context.Context, zdb *zenodb.DB, sqlString string, includeMem bool, onRow func(i int, r *Row) (bool, error)) *Result {
